@@ -21,7 +21,8 @@ MODELLED = ("plan_mutator (preprocessors.py 33-227, with the C21-a repair) is mo
             "message) and does not raise; CPython generators are modelled by Gen/PyGen.v (validated by the C20 check).")
 RULE = ("hosts from a palette (plain, using responses, same Msg twice, catching, with finally, returning) x processor "
         "tables inserting head / tail / both / nested (a head message that is itself rewritten) / single_gen "
-        "(None, tail) / empty / raising / exception-swallowing / value-returning plans at one or two messages x EVERY "
+        "(None, tail) / empty / raising / exception-swallowing / exception-translating (catch the thrown failure, raise "
+        "another kind at once or after more messages, or return) / value-returning plans at one or two messages x EVERY "
         "script over {send None, send 1, send 2, throw User0, throw User1, close} up to length 5 (quick) / 6 (thorough), "
         "plus wide-alphabet scripts (PlanHalt, KeyboardInterrupt, RequestAbort) on a subset and seeded random hosts / "
         "plans; non-trivial = an inserted plan was started and some script has >= 3 steps")
@@ -61,6 +62,14 @@ PLANS = [
     seq(Y(0), Y(5)),                                            # re-yields the original message m0 (head idiom)
     ["try", Y(4), [], ["pass"], Y(5)],                          # own cleanup that yields
 ]
+# inserted plans that TRANSLATE a thrown-in failure: catch it and raise their own / go on and then raise or return
+TRANSLATING = [
+    ["try", Y(4), [["exc", ["raise", "User1"]]], ["pass"], ["pass"]],                       # except A: raise B
+    ["try", Y(4), [["exc", seq(Y(5), ["raise", "User1"])]], ["pass"], ["pass"]],            # except A: yield; raise B
+    ["try", Y(4), [["exc", seq(Y(5, 0), ["return", ["var", 0]])]], ["pass"], ["pass"]],     # except A: r = yield; return r
+    ["try", Y(4), [[["kind", "User0"], ["raise", "ValueError"]]], ["pass"], Y(5)],          # translate + cleanup message
+    seq(Y(4), ["try", Y(5), [["exc", ["raise", "User2"]]], ["pass"], ["pass"]]),            # translate at the 2nd message
+]
 NESTED = {4: [Y(6), Y(7)]}                                      # message 4 of an inserted plan gets its own head/tail
 
 
@@ -72,6 +81,14 @@ def tables():
         out.append({0: [None, t]})                               # single_gen(msg) + tail
     for h, t in itertools.product(PLANS[:8], PLANS[:7]):
         out.append({0: [h, t]})
+    for x in TRANSLATING:
+        out.append({0: [x, None]})
+        out.append({0: [None, x]})
+        out.append({0: [x, PLANS[0]]})
+        out.append({0: [PLANS[0], x]})
+        out.append({0: [x, x]})
+    out.append({0: [TRANSLATING[0], None], 4: [None, TRANSLATING[1]]})      # translating plans nested in one another
+    out.append({0: [PLANS[0], None], 4: [TRANSLATING[0], TRANSLATING[3]]})
     for h in (PLANS[0], PLANS[1], PLANS[5]):
         out.append({0: [h, PLANS[0]], 4: NESTED[4]})             # nested insertion
         out.append({0: [h, None], 1: [None, PLANS[0]]})          # two rewritten host messages
@@ -86,7 +103,8 @@ def cases(rng, tier):
     for tb in tables():
         for hi, host in enumerate(HOSTS):
             k += 1
-            if tier == "quick" and k % 3:
+            translating = any(p in TRANSLATING for v in tb.values() for p in v)
+            if tier == "quick" and k % 3 and not (translating and hi in (0, 3, 4)):
                 continue
             wide = (k % 7 == 0)
             out.append({"host": host, "table": {str(m): v for m, v in tb.items()}, "alpha": "wide" if wide else "core",
